@@ -39,9 +39,13 @@ def main(argv=None):
 
         return setup.main()
     if args.what == "selftest":
-        from . import selftest
+        # the oracles against an independent renderer (resvg), as C01 / C02 do at the start of every run
+        from . import oracle_selftest
 
-        return selftest.main()
+        common.setup_repo_imports()
+        print("selftest (SVG side):", oracle_selftest.svg_side(24))
+        print("selftest (OT-SVG side):", oracle_selftest.otsvg_side(10))
+        return 0
     pid = args.what.upper()
     if pid not in CHECKS:
         print(f"unknown check {pid}; have {sorted(CHECKS)}", file=sys.stderr)
